@@ -22,6 +22,7 @@ struct Tally {
     continuation_events: u64,
     learning_commits_before: u64,
     ac_affected_lists: u64,
+    second_updates: u64,
 }
 fn flush(t: &Tally, out: &mut Out) {
     out.count("evaluations", t.calls);
@@ -34,6 +35,7 @@ fn flush(t: &Tally, out: &mut Out) {
     out.count("continuation_events_compared", t.continuation_events);
     out.count("learning_commits_before_update", t.learning_commits_before);
     out.count("continuation_lists_whose_first_candidate_comes_from_the_user_list", t.ac_affected_lists);
+    out.count("second_updates_compared", t.second_updates);
 }
 
 // the last four compose Bengali emoji names on the fixed layouts (হাসি, লল, কুল, "হাসি")
@@ -269,6 +271,36 @@ fn run_case(c: &Case, root: &Path, out: &mut Out, t: &mut Tally) {
             }
         }
     }
+    // A second re-configuration of both contexts (suggestions switched on where the method has them) and the same words
+    // once more: what the continuation left behind in the updated context (learned entries, memo, stale indices) must not
+    // differ from what it left in the new one.
+    let on = if c.b.lay.is_fixed() { O_FSUGG } else { O_PSUGG };
+    let spec_c = c.b.with(on);
+    t.calls += 2;
+    let mut f = f;
+    if let Err(p) = u.update(spec_c).and_then(|_| f.update(spec_c)) {
+        return fail(out, "second update_engine", &p);
+    }
+    t.second_updates += 1;
+    for (w, _) in &c.after {
+        match (type_word(&u, w, None, t), type_word(&f, w, None, t)) {
+            (Ok((a, _)), Ok((b, _))) => {
+                t.continuation_events += a.len() as u64;
+                if a != b {
+                    let k = a.iter().zip(&b).position(|(x, y)| x != y).unwrap_or(0);
+                    let mut cj = case_json(c);
+                    cj["differs_at"] = json!({"word": w, "step": k, "after_second_update_to": spec_c.to_json()});
+                    out.violation("update-equals-new-context", format!("c11:differs:after-second-update:{}->{}", c.a.lay.name(), c.b.lay.name()), cj,
+                                  format!("{} (the context that was newly created with the first new configuration)", b.get(k).cloned().unwrap_or_default()), format!("{} (the context that was updated twice)", a.get(k).cloned().unwrap_or_default()));
+                    return;
+                }
+            }
+            (ra, rb) => {
+                let p = ra.err().or(rb.err()).unwrap();
+                return fail(out, "typing after the second update", &p);
+            }
+        }
+    }
     if out.want_sample() && t.triples % 397 == 3 {
         out.sample(case_json(c));
     }
@@ -281,7 +313,7 @@ impl Prop for C11 {
     fn rule(&self) -> String {
         "random triples (configuration before, history, configuration after): layouts phonetic / Probhat / synthetic with random options; the new configuration is a single option flip on the same layout (1/4), 2-3 flips (1/8), the same configuration (pure reload, 1/8) or a random configuration on a random layout (1/2); \
          before the update: 0-4 words typed and finished or committed (learning commits included), 0-2 rewrites of the user auto-correct file (6 documents incl. empty object and an empty-string value) with explicitly increasing mtime, optionally an update_engine with the same configuration and another word; \
-         after the update: 1-6 words, half of them words already typed before the edit, typed in the updated context and in a context newly created with the new configuration over the same user files; every key's rendering, the flag and the commits are compared. \
+         after the update: 1-6 words, half of them words already typed before the edit, typed in the updated context and in a context newly created with the new configuration over the same user files; every key's rendering, the flag and the commits are compared; then both contexts are re-configured once more (suggestions on) and the same words are typed again and compared. \
          distinct_nontrivial = distinct (configuration pair, history shape, continuation words) triples compared."
             .into()
     }
@@ -297,7 +329,7 @@ impl Prop for C11 {
     fn minima(&self, _tier: Tier) -> Vec<(&'static str, u64)> {
         vec![
             ("triples_compared", 1_500), ("triples.layout_changed", 300), ("triples.method_changed", 200), ("triples.same_layout_option_flips", 300), ("triples.autocorrect_edited_before_update", 500),
-            ("continuation_words_already_typed_before_the_edit", 300), ("continuation_lists_whose_first_candidate_comes_from_the_user_list", 150), ("learning_commits_before_update", 100),
+            ("continuation_words_already_typed_before_the_edit", 300), ("continuation_lists_whose_first_candidate_comes_from_the_user_list", 150), ("learning_commits_before_update", 100), ("second_updates_compared", 1_000),
         ]
     }
     fn run_shard(&self, env: &Env, out: &mut Out) {
